@@ -35,7 +35,7 @@ pub enum Source<'a> {
 
 /// the C18 battery: element, tuple, path, join, filter, aggregate, belief, order/limit patterns.
 /// `sorted`: the answer is a set (no ORDER BY), compared after sorting its rows.
-pub const BATTERY: [(&str, &str, &str, bool); 14] = [
+pub const BATTERY: [(&str, &str, &str, bool); 16] = [
     ("concept-default", "FIND(?e) WHERE { ?e CONCEPT {} }", "", true),
     ("concept-archived", "FIND(?e.id, ?e.name, ?e._system.version) WHERE { ?e CONCEPT {state: \"archived\"} }", "", true),
     ("concept-tombstoned", "FIND(?e.id, ?e._system.version) WHERE { ?e CONCEPT {state: \"tombstoned\"} }", "", true),
@@ -49,6 +49,10 @@ pub const BATTERY: [(&str, &str, &str, bool); 14] = [
     ("filter", "FIND(?c.id, ?c.name) WHERE { ?c CONCEPT {} FILTER(?c.name != \"n1\") }", "", true),
     ("count", "FIND(COUNT(?c)) WHERE { ?c CONCEPT {} }", "", true),
     ("belief", "FIND(?p.id, ?b.status) WHERE { ?p PROPOSITION (?s, \"prefers\", ?o) ?b BELIEF (?p) }", "", true),
+    // every Concept with its version AND its mutable columns (name, one attribute, one Facet member):
+    // a coordinate that lost a version row shows as a vanished row or as an older version
+    ("concept-version-values", "FIND(?c.id, ?c._system.version, ?c._system.state, ?c.name, ?c.attributes.note, ?c.facets[\"MnemonicState\"].salience) WHERE { ?c CONCEPT {state: ?s} }", "", true),
+    ("concept-facet-filter", "FIND(?c.id, ?c._system.version, ?c.facets[\"MnemonicState\"].salience) WHERE { ?c CONCEPT {} FILTER(?c.facets[\"MnemonicState\"].salience > 0.4) }", "", true),
     ("order-limit", "FIND(?c.id, ?c.name) WHERE { ?c CONCEPT {} }", " ORDER BY ?c.id LIMIT 3", false),
 ];
 /// the pattern that also reaches `pending` shell rows (root cause F-C17-1); reported under its own key
@@ -81,7 +85,7 @@ fn asof_key(form: &str, i: usize, observed: &str) -> String {
 
 /// battery entries whose rows are self-contained (each row spells the ids it depends on), so that
 /// rows mentioning an element a later committed PURGE destroyed can be set aside on both sides
-const SCRUBBABLE: [usize; 9] = [0, 1, 2, 3, 4, 6, 8, 9, 10];
+const SCRUBBABLE: [usize; 11] = [0, 1, 2, 3, 4, 6, 8, 9, 10, 13, 14];
 
 /// drops the rows that mention a purged element
 fn scrub(text: &str, purged: &[String]) -> String {
@@ -155,6 +159,10 @@ pub async fn run_case(name: &str, cfg: Cfg, mut model: Option<&mut ModelProc>, m
         res.ops.push(line.clone());
         for c in &st.clauses {
             res.hits.push(format!("clause:{}", c.shape()));
+            if let Clause::Ud { acts, .. } = c {
+                for a in acts { res.hits.push(format!("update:{}", a.family())); }
+                if acts.iter().all(|a| matches!(a, Act::Facet(_) | Act::UnsetFacet)) { res.hits.push("update:facet-only".into()); }
+            }
         }
         res.hits.push(format!("stmt:clauses={}", st.clauses.len().min(6)));
         if st.dry { res.hits.push("stmt:dry".into()); }
@@ -194,6 +202,11 @@ pub async fn run_case(name: &str, cfg: Cfg, mut model: Option<&mut ModelProc>, m
             res.failures.extend(oracle::check_unique(&post));
             pre_q = post_q;
         }
+
+        // ---------------- both: the version log, counted per element (independent of the model):
+        // a commit adds exactly one row per changed element, a committed purge leaves only the stub
+        // row of its target, nothing else ever removes a row
+        res.failures.extend(oracle::check_log_counts(&out, &pre, &post, &purge_targets));
 
         // ---------------- C18 oracle: replay every recorded coordinate, then record this one
         if cfg.history {
@@ -265,6 +278,10 @@ pub async fn run_case(name: &str, cfg: Cfg, mut model: Option<&mut ModelProc>, m
             // record the coordinate that is the present now (every statement burns one, committed or not)
             if !matches!(out, Outcome::Parse(_)) && recorded.iter().all(|r| r.seq != post.seq) {
                 let (answers, anystate) = battery(&w, "").await;
+                for (i, a) in answers.iter().enumerate() {
+                    if a.starts_with("error") || a.starts_with("parse-error") { res.hits.push(format!("battery-error:{}:{}", BATTERY[i].0, &a[..a.len().min(60)])); }
+                    if i == 14 && a.contains("0.") { res.hits.push("battery:facet-value-read".into()); }
+                }
                 let (tx_id, at) = match &out { Outcome::Done { tx_id, committed_at, .. } => (Some(tx_id.clone()), Some(committed_at.clone())), _ => (None, None) };
                 recorded.push(Recorded { seq: post.seq, tx_id, at, answers, anystate });
                 res.hits.push("asof:coordinate-recorded".into());
